@@ -124,8 +124,9 @@ func caseFromRuns(runs []mirrorResult) (*Case, bool) {
 			rs.Name = d.BuildName
 			p := Problem{File: d.Position.Filename, Line: d.Position.Line, Col: d.Position.Column, EndLine: d.End.Line, EndCol: d.End.Column,
 				Category: d.Category, Message: d.Message, Severity: d.Severity, All: d.MergeIf == lint.MergeIfAll}
-			if d.End.Filename != "" && d.End.Filename != d.Position.Filename || len(d.Related) > 0 {
-				ok = false // outside what the model's text rendering covers
+			if d.End.Filename != "" && d.End.Filename != d.Position.Filename || len(d.Related) > 0 ||
+				d.Position.Line == 0 || d.Position.Filename == "" || strings.ContainsAny(d.Message, "\n\r") {
+				ok = false // outside what the model's one-line text rendering covers (e.g. package-level compile errors)
 			}
 			j, have := index[p]
 			if !have {
@@ -154,6 +155,7 @@ func (c *ctx) matrixPart(root string) (evals, nontrivial int) {
 		viols []viol
 		mc    *matrixCase
 		class string
+		un    bool
 	}
 	results := make([]result, n)
 	var wg sync.WaitGroup
@@ -233,7 +235,11 @@ func (c *ctx) matrixPart(root string) (evals, nontrivial int) {
 				}
 			}
 			dr, un := nontrivialCase(cs, ms)
-			res.nt = dr && un
+			res.nt = dr || un
+			res.un = un
+			if !modelable {
+				c.r.Add("matrix_cases_outside_model_rendering", 1)
+			}
 			if dr {
 				c.r.Add("matrix_cases_with_dropped_all_problem", 1)
 			}
@@ -246,11 +252,15 @@ func (c *ctx) matrixPart(root string) (evals, nontrivial int) {
 		}(i)
 	}
 	wg.Wait()
+	unions := 0
 	for i, res := range results {
 		if !res.ok {
 			continue
 		}
 		evals++
+		if res.un {
+			unions++
+		}
 		if res.nt {
 			nontrivial++
 		}
@@ -260,8 +270,8 @@ func (c *ctx) matrixPart(root string) (evals, nontrivial int) {
 				"how": "write the files into a module, then: staticcheck -matrix -f text ./... < matrix  versus  one `staticcheck -matrix -f binary ./...` per matrix line, merged with `staticcheck -merge`"})
 		}
 	}
-	if evals > 0 && nontrivial == 0 {
-		c.r.Inconclusive("no matrix comparison exercised both a dropped 'all' problem and a build-name union")
+	if evals > 0 && unions == 0 {
+		c.r.Inconclusive("no matrix comparison exercised a build-name union")
 	}
 	return
 }
